@@ -89,6 +89,7 @@ class Desugar(ast.NodeTransformer):
                 if len(tg) == 1 and isinstance(tg[0], ast.Name) and counts.get(tg[0].id) == 1 and self._table(s.value) is not None:
                     self.module_tables[tg[0].id] = s.value
         self.class_tables: List[Dict[str, ast.expr]] = []
+        self.attr_stores = {x.attr for x in ast.walk(module_tree) if isinstance(x, ast.Attribute) and isinstance(x.ctx, (ast.Store, ast.Del))}
         self.func_stack: List[ast.AST] = []
         self.count = {"match": 0, "unrolled": 0, "getattr": 0, "walrus": 0}
 
@@ -151,6 +152,17 @@ class Desugar(ast.NodeTransformer):
             self.func_stack.pop()
 
     visit_AsyncFunctionDef = visit_FunctionDef
+
+    def visit_Attribute(self, node: ast.Attribute):
+        node = self.generic_visit(node)
+        # self.<NAME> / cls.<NAME> where the class body binds NAME once to a tuple of constants / names and nothing in the
+        # module ever assigns an attribute of that name: the tuple itself
+        if isinstance(node.ctx, ast.Load) and isinstance(node.value, ast.Name) and node.value.id in ("self", "cls") and self.class_tables and self.func_stack:
+            v = self.class_tables[-1].get(node.attr)
+            if isinstance(v, ast.Tuple) and node.attr not in self.attr_stores:
+                self.count["class_constant"] = self.count.get("class_constant", 0) + 1
+                return ast.copy_location(copy.deepcopy(v), node)
+        return node
 
     # ------------------------------------------------------------------ getattr
     def visit_Call(self, node: ast.Call):
